@@ -285,6 +285,47 @@ def cases(modules):
                                         ",".join("%s:%d" % (q(k), n) for k, n in desired.items()) or "-",
                                         "|".join(",".join(q(k) for k in g) or "-" for g in groups) or "-")
             out.append(("index.AutoIndexManager.find_present_keys", line, want, (avail, th, desired, groups)))
+    if "StoreGate" in modules:
+        import random
+        from xandikos.store.git import GitStore
+        from xandikos.store.vdir import VdirStore
+        rng = random.Random(17)
+        q = lambda s: urllib.parse.quote(s, safe="")
+        uids, names, etags = ["u1", "u2", "U1", "u 3"], ["a.ics", "b.ics", "c d.ics"], ["e1", "e2", "e3"]
+        for _ in range(600):
+            kind = rng.choice(["git", "vdir"])
+            cls = GitStore if kind == "git" else VdirStore
+            u2f = {u: (rng.choice(names), rng.choice(etags)) for u in rng.sample(uids, rng.randint(0, 3))}
+            cur = rng.choice([None] + etags)
+            uid = rng.choice([None] + uids)
+            name = rng.choice(names)
+            rep = rng.choice([None, None] + etags)
+
+            class Stub:
+                _check_for_duplicate_uids = True
+                _uid_to_fname = dict(u2f)
+
+                def _scan_uids(self):
+                    pass
+
+                def _get_etag(self, n, _c=cur):
+                    if _c is None:
+                        raise KeyError(n)
+                    return _c
+            enc_m = ",".join("%s:%s:%s" % (q(u), q(n), q(e)) for u, (n, e) in u2f.items()) or "-"
+            try:
+                r = cls._check_duplicate(Stub(), uid, name, rep)
+                want = "ok " + enc(r)
+            except Exception as e:   # noqa: BLE001
+                want = "raise:" + type(e).__name__
+            out.append(("store._check_duplicate (%s)" % kind, "cd %s %s %s %s %s %s" % (kind, enc_m, enc(cur), enc(uid), enc(name), enc(rep)),
+                        want, (kind, u2f, cur, uid, name, rep)))
+            st = Stub()
+            cls._forget_uid(st, name, uid)
+            want2 = "=" + ",".join("%s:%s" % (q(u), "%s:%s" % (q(st._uid_to_fname[u][0]), q(st._uid_to_fname[u][1])) if u in st._uid_to_fname else "~:~")
+                                   for u in uids)
+            out.append(("store._forget_uid (%s)" % kind, "fu %s %s %s %s %s" % (kind, enc_m, enc(name), enc(uid), ",".join(q(u) for u in uids)),
+                        want2, (kind, u2f, name, uid)))
     if "Gates" in modules:
         import ast
         import translate
@@ -344,6 +385,10 @@ def _canon_fpk(text):
 def _canon(fn, text):
     if fn == "index.AutoIndexManager.find_present_keys":
         return _canon_fpk(text)
+    if fn.startswith("store._check_duplicate") and text.startswith("ok "):
+        return ("ok", None if text[3:] == "~" else dec(text[3:]))
+    if fn.startswith("store._forget_uid") and text.startswith("="):
+        return [[None if y == "~" else dec("=" + y) for y in row.split(":")] for row in text[1:].split(",")]
     if text == "~":
         return None
     if not text.startswith("="):
@@ -407,6 +452,7 @@ def regen(chk, modules):
         text, err = res[m]
         funcs = ", ".join(s["func"] for s in translate.SPECS + translate.SCAN_SPECS if s["module"] == m) or \
             {"Wellknown": "WellknownRedirector.__call__, WELLKNOWN_DAV_PATHS", "IterChanges": "GitStore.iter_changes", "Multiget": "_get_resources_by_hrefs", "FindKeys": "AutoIndexManager.find_present_keys",
+             "StoreGate": "_check_duplicate and _forget_uid of GitStore and VdirStore",
              "ExcTables": "except tables of set_body, create_member, PutMethod.handle, PostMethod.handle",
              "Gates": "precondition gates of PutMethod.handle, DeleteMethod.handle, _do_get"}.get(m, m)
         tr[funcs] = "ok" if text else "unavailable: " + err
